@@ -113,6 +113,19 @@ T_ListingComplete ==
     l > 0 => \A i \in DOMAIN Trace[l].q :
                 IsCT(Trace[l].q[i]) \/ QComplete(reg, Trace[l].q[i]) \/ Fail("ListingComplete", i)
 
+\* C06 on what was observed (cert.extra_stage("C06")): the message requires exactly the signature of the owner it
+\* names (create: Owner field; revoke: the id's owner), and touches only the record it names
+T_C06_Signers ==
+    (l > 0 /\ Trace[l].ev \in {"create", "revoke"}) =>
+        Trace[l].signers = << IF Trace[l].ev = "create" THEN Trace[l].mo ELSE Trace[l].o >>
+T_C06_Touch == [][out'.k = "load" \/ StepTouch(reg, reg', out')]_tvars
+
+\* C07 on what was observed (cert.extra_stage("C07")): every execution of the step -- repetitions on sibling
+\* branches, before and after the wall clock passed the timed certificates' validity edge, in two application
+\* instances -- gave the same digest of result, gas, events and store bytes
+T_Deterministic ==
+    l > 0 => \A i \in DOMAIN Trace[l].digests, j \in DOMAIN Trace[l].digests : Trace[l].digests[i] = Trace[l].digests[j]
+
 \* every recorded line was consumed
 T_AllConsumed == TLCGet("stats").diameter = Len(Trace) + 1
 =============================================================================
